@@ -166,7 +166,7 @@ def main():
             # check that could not run is recorded as inconclusive in the evidence
             chk.inconclusive_note(f"harness error after {len(chk.violations)} reported violation(s): {type(e).__name__}: {str(e)[:160]}")
             _leave(chk.finish(explanation="run ended by a harness error after violations had been reported", rule="see the check's normal evidence for the rule"))
-        sys.exit(2)
+        _leave(2)
     _leave(code)
 
 
